@@ -22,6 +22,10 @@ pub enum Flavour {
     /// member of a MultiProgress on a stderr that is not a TTY (the bar can be removed, which leaves the
     /// MultiProgress empty; MultiProgress::println is in the alphabet)
     NotATtyMulti,
+    /// a `console::Term` made of a read/write pair of files (not a TTY)
+    ReadWritePair,
+    /// `ProgressDrawTarget::stdout_with_hz` while stdout is /dev/null and stderr is a terminal (a pty)
+    StdoutNotATtyStderrTty,
     /// member of a hidden MultiProgress, removed, after which the MultiProgress is given a visible target
     RemovedFromHiddenMultiThenShown,
 }
@@ -58,6 +62,66 @@ fn redirect_stderr() -> &'static std::fs::File {
         let _ = std::fs::remove_file(&path);
         f
     })
+}
+
+/// Restores fd 1 and fd 2 when the history is over (also on the early-return paths).
+struct FdGuard(Option<(i32, i32)>);
+
+impl Drop for FdGuard {
+    fn drop(&mut self) {
+        if let Some((o1, o2)) = self.0.take() {
+            unsafe {
+                libc::dup2(o1, 1);
+                libc::dup2(o2, 2);
+                libc::close(o1);
+                libc::close(o2);
+            }
+        }
+    }
+}
+
+/// A pseudo terminal whose slave end can be put on fd 2: (master fd, slave fd).
+static PTY: std::sync::OnceLock<Option<(i32, i32)>> = std::sync::OnceLock::new();
+
+/// None where the sandbox offers no pseudo terminals (the flavour that needs one is then skipped and
+/// the evidence says so).
+fn pty_opt() -> Option<(i32, i32)> {
+    *PTY.get_or_init(|| unsafe {
+        let m = libc::posix_openpt(libc::O_RDWR | libc::O_NOCTTY);
+        if m < 0 || libc::grantpt(m) != 0 || libc::unlockpt(m) != 0 {
+            return None;
+        }
+        let name = libc::ptsname(m);
+        if name.is_null() {
+            return None;
+        }
+        let s = libc::open(name, libc::O_RDWR | libc::O_NOCTTY);
+        if s < 0 || libc::isatty(s) != 1 {
+            return None;
+        }
+        let fl = libc::fcntl(m, libc::F_GETFL);
+        libc::fcntl(m, libc::F_SETFL, fl | libc::O_NONBLOCK);
+        Some((m, s))
+    })
+}
+
+fn pty() -> (i32, i32) {
+    pty_opt().expect("pty")
+}
+
+/// Bytes that arrived on the pty master since the last call.
+fn pty_drain() -> usize {
+    let (m, _) = pty();
+    let mut n = 0usize;
+    let mut buf = [0u8; 4096];
+    loop {
+        let k = unsafe { libc::read(m, buf.as_mut_ptr() as *mut libc::c_void, buf.len()) };
+        if k <= 0 {
+            break;
+        }
+        n += k as usize;
+    }
+    n
 }
 
 fn stderr_len() -> u64 {
@@ -122,6 +186,10 @@ impl Hist for C06 {
     }
 
     fn run(&self, hist: &[Op], stats: &mut Stats) -> Verdict {
+        if self.flavour == Flavour::StdoutNotATtyStderrTty && pty_opt().is_none() {
+            stats.bump("skipped_no_pseudo_terminal_available", 1);
+            return Verdict::Ok { hash: 0, nontrivial: false };
+        }
         clock::reset();
         redirect_stderr();
         let err0 = stderr_len();
@@ -131,6 +199,8 @@ impl Hist for C06 {
         // hidden subject
         let spy = Spy::new(40, 30, false);
         let mut mp: Option<MultiProgress> = None;
+        let mut pair_file: Option<std::fs::File> = None;
+        let mut saved_fds = FdGuard(None);
         let mk = || ProgressBar::with_draw_target(Some(5), ProgressDrawTarget::hidden()).with_style(style(2)).with_finish(self.fin.real());
         let subject = match self.flavour {
             Flavour::HiddenTarget => mk(),
@@ -154,6 +224,29 @@ impl Hist for C06 {
                 let b = m.add(mk());
                 mp = Some(m);
                 b
+            }
+            Flavour::ReadWritePair => {
+                let dir = "/verif/harness/target/tmp";
+                let _ = std::fs::create_dir_all(dir);
+                let path = format!("{dir}/pair-{}.txt", std::process::id());
+                let wfile = std::fs::OpenOptions::new().create(true).write(true).read(true).truncate(true).open(&path).expect("pair file");
+                pair_file = Some(wfile.try_clone().expect("clone"));
+                let _ = std::fs::remove_file(&path);
+                let term = console::Term::read_write_pair(std::fs::File::open("/dev/null").expect("devnull"), wfile);
+                ProgressBar::with_draw_target(Some(5), ProgressDrawTarget::term(term, 20)).with_style(style(2)).with_finish(self.fin.real())
+            }
+            Flavour::StdoutNotATtyStderrTty => {
+                // fd 1 -> /dev/null, fd 2 -> pty slave for the duration of this history
+                let (_, slave) = pty();
+                unsafe {
+                    saved_fds.0 = Some((libc::dup(1), libc::dup(2)));
+                    let dn = libc::open(b"/dev/null\0".as_ptr() as *const libc::c_char, libc::O_WRONLY);
+                    libc::dup2(dn, 1);
+                    libc::close(dn);
+                    libc::dup2(slave, 2);
+                }
+                pty_drain();
+                ProgressBar::with_draw_target(Some(5), ProgressDrawTarget::stdout_with_hz(200)).with_style(style(2)).with_finish(self.fin.real())
             }
             Flavour::RemovedFromHiddenMultiThenShown => {
                 let m = MultiProgress::with_draw_target(ProgressDrawTarget::hidden());
@@ -204,7 +297,13 @@ impl Hist for C06 {
                     Flavour::RemovedFromHiddenMultiThenShown => removed_calls.map_or(spy.calls() == 0, |c| spy.calls() == c),
                     _ => spy.calls() == 0,
                 };
-                if !silent {
+                let pair_bytes = pair_file.as_ref().and_then(|f| f.metadata().ok()).map_or(0, |m| m.len());
+                let pty_bytes = if self.flavour == Flavour::StdoutNotATtyStderrTty { pty_drain() } else { 0 };
+                if pair_bytes > 0 {
+                    last_err = Some(("silence: bytes were written to a Term (read/write pair) that is not a TTY".into(), format!("{pair_bytes} bytes")));
+                } else if pty_bytes > 0 {
+                    last_err = Some(("silence: a bar on a stdout that is not a TTY wrote to the terminal on stderr".into(), format!("{pty_bytes} bytes")));
+                } else if !silent {
                     last_err = Some(("silence: a hidden bar invoked a terminal operation".into(), format!("spy calls {} (at removal: {:?})", spy.calls(), removed_calls)));
                 } else if stderr_len() != err0 {
                     last_err = Some(("silence: bytes were written to a stderr that is not a TTY".into(), format!("{} bytes", stderr_len() - err0)));
@@ -220,6 +319,7 @@ impl Hist for C06 {
                 }
             }
         }
+        drop(saved_fds);
         let g = catch(|| getters(&subject)).ok();
         let hidden_now = catch(|| subject.is_hidden()).unwrap_or(false);
         let _ = catch(move || drop((twin, subject, mp)));
@@ -234,9 +334,9 @@ impl Hist for C06 {
 
 fn configs(tier: Tier) -> Vec<(C06, usize)> {
     let mut v = Vec::new();
-    let flavours = [Flavour::HiddenTarget, Flavour::NotATty, Flavour::HiddenMulti, Flavour::RemovedFromMulti, Flavour::NotATtyHz, Flavour::RemovedFromHiddenMultiThenShown, Flavour::NotATtyMulti];
+    let flavours = [Flavour::HiddenTarget, Flavour::NotATty, Flavour::HiddenMulti, Flavour::RemovedFromMulti, Flavour::NotATtyHz, Flavour::RemovedFromHiddenMultiThenShown, Flavour::NotATtyMulti, Flavour::ReadWritePair, Flavour::StdoutNotATtyStderrTty];
     for (k, &flavour) in flavours.iter().enumerate() {
-        let fin = [Fin::AndLeave, Fin::WithMessage, Fin::AndClear, Fin::AbandonWithMessage, Fin::Abandon, Fin::AndLeave, Fin::WithMessage][k];
+        let fin = [Fin::AndLeave, Fin::WithMessage, Fin::AndClear, Fin::AbandonWithMessage, Fin::Abandon, Fin::AndLeave, Fin::WithMessage, Fin::AndClear, Fin::AndLeave][k];
         match tier {
             Tier::Quick => {
                 v.push((C06 { flavour, fin, reduced: false }, if flavour == Flavour::RemovedFromMulti { 3 } else { 2 }));
@@ -260,7 +360,7 @@ pub fn run(tier: Tier, shard: Shard, stats: &mut Stats) {
 pub fn meta(tier: Tier) -> Meta {
     Meta {
         level: "model_checking",
-        rule: "stateless DFS over all single-bar histories (26-operation alphabet incl. println, suspend, set_tab_width, length changes, every finish variant, positions beyond the length) to the stated depth, each executed in lock-step on a visible twin and on a hidden subject: ProgressDrawTarget::hidden(), ProgressBar::new with fd 2 redirected to a file (not a TTY), stderr_with_hz on the same, member of a hidden MultiProgress, a member of a visible MultiProgress removed at every possible point of the history, and a member of a hidden MultiProgress removed at every point after which the MultiProgress is given a visible target; oracle: zero terminal calls (spy call counter incl. width/height; redirected file stays empty) and getters equal to the twin's after every operation; non-trivial = history contains more than ticks".into(),
+        rule: "stateless DFS over all single-bar histories (26-operation alphabet incl. println, suspend, set_tab_width, length changes, every finish variant, positions beyond the length) to the stated depth, each executed in lock-step on a visible twin and on a hidden subject: ProgressDrawTarget::hidden(), ProgressBar::new with fd 2 redirected to a file (not a TTY), stderr_with_hz on the same, a console::Term made of a read/write pair of files, stdout_with_hz while stdout is /dev/null and stderr is a pseudo terminal, member of a hidden MultiProgress, a member of a visible MultiProgress removed at every possible point of the history, and a member of a hidden MultiProgress removed at every point after which the MultiProgress is given a visible target; oracle: zero terminal calls (spy call counter incl. width/height; redirected file stays empty) and getters equal to the twin's after every operation; non-trivial = history contains more than ticks".into(),
         assumptions: vec!["fd 2 of the shard process is redirected to an unlinked file for the whole run".into()],
         bounds: json!({"configurations": configs(tier).iter().map(|(c, d)| json!({"config": c.config(), "reduced_alphabet": c.reduced, "depth": d})).collect::<Vec<_>>()}),
         exhaustive: true,
